@@ -734,3 +734,21 @@ def eval_int(f, e, env, depth=0):
         except Exception:
             return None
     return None
+
+
+def edge_rels(f, cond, k):
+    """both orientations of the relation established on edge k of cond: [(lhs, op, rhs), (rhs, swapped op, lhs)] — empty if not a comparison"""
+    r = edge_relation(f, cond, k)
+    if r is None:
+        return []
+    l, o, rr = r
+    return [(l, o, rr), (rr, _SWAP[o], l)]
+
+
+def edge_says(f, cond, k, lhs_pred, ops, rhs_pred):
+    """does edge k of cond establish `L op R` with lhs_pred(L), rhs_pred(R) and op in ops (either orientation)?  '<' implies '<=' and '!=', etc."""
+    implied = {'<': ('<', '<=', '!='), '<=': ('<=',), '>': ('>', '>=', '!='), '>=': ('>=',), '==': ('==', '<=', '>='), '!=': ('!=',)}
+    for l, o, r in edge_rels(f, cond, k):
+        if lhs_pred(l) and rhs_pred(r) and any(x in implied[o] for x in ops):
+            return True
+    return False
